@@ -14,7 +14,7 @@ import ast
 
 from ..engine import rule
 from ..model import Undecided
-from ..cfg import dotted, call_name, is_call, simple_name, unparse, const_value, contains, enclosing
+from ..cfg import same, same_args, dotted, call_name, is_call, simple_name, unparse, const_value, contains, enclosing
 from ..flow import Canon, Defs, depends, try_const
 from ..decide import table, ret_kind
 from ..util import keyword, returns_of, calls_in, inside, order_key
@@ -35,11 +35,11 @@ def c11a(ctx):
     ok = len(adds) == 1 and len(writes) == 1 and g.dominates(adds[0][0], writes[0][0])
     if ok:
         a = adds[0][1]
-        ok = unparse(a.args[0]) == 'self.current_task_id' and is_call(a.args[1], 'progress.current_progress_identifier')
+        ok = same(a.args[0], 'self.current_task_id') and is_call(a.args[1], 'progress.current_progress_identifier')
     ctx.check(ok, 'ProgressLog.log_progress:stores-identifier', 'the store receives (task id, progress.current_progress_identifier()) and is written right after', lp,
               fail='log_progress does not store the current progress identifier of the running task')
     ws = ctx.fn(U + ':ProgressStore.write')
-    ok = any(is_call(x, 'write_atomic') and unparse(x.args[0]) == 'self.filename' for x in ws.walk())
+    ok = any(is_call(x, 'write_atomic') and same(x.args[0], 'self.filename') for x in ws.walk())
     ctx.check(ok, 'ProgressStore.write:atomic', 'the progress file is replaced atomically', ws,
               fail='the progress file is written in place: an interruption while writing leaves an unreadable progress file')
     ld = ctx.fn(U + ':ProgressStore.load')
@@ -72,7 +72,7 @@ def c11a(ctx):
     ok = len(rets) == 2
     for r in rets:
         n = g.node_of[id(r)]
-        if unparse(r.value) == 'self.old_level_progresses':
+        if same(r.value, 'self.old_level_progresses'):
             ok = ok and enclosing(r, ast.If) is not None
         else:
             ok = ok and unparse(r.value) in ('self.level_progresses[:]', 'list(self.level_progresses)', 'self.level_progresses.copy()')
@@ -127,10 +127,10 @@ def c11b(ctx):
               'identical identifiers are not skipped (the interrupted subtree is walked again)', fn,
               fail='an identifier equal to the stored one is skipped: the subtree that was interrupted is never finished')
     zl = [x for x in fn.walk() if is_call(x, 'zip_longest')]
-    ok = bool(zl) and [unparse(a) for a in zl[0].args] == ['old_progress', 'current_progress']
+    ok = bool(zl) and same_args(zl[0].args, ['old_progress', 'current_progress'])
     ctx.check(ok, 'SeedProgress.can_skip:pairs', 'pairs are (old, current) in that order', fn)
     ap = ctx.fn(S + ':SeedProgress.already_processed')
-    ok = any(is_call(x, 'self.can_skip') and [unparse(a) for a in x.args] == ['self.old_level_progresses', 'self.level_progresses'] for x in ap.walk())
+    ok = any(is_call(x, 'self.can_skip') and same_args(x.args, ['self.old_level_progresses', 'self.level_progresses']) for x in ap.walk())
     ctx.check(ok, 'SeedProgress.already_processed:args', 'already_processed = can_skip(old identifier, current path)', ap)
     wk = ctx.fn(S + ':TileWalker._walk')
     g = wk.cfg
@@ -142,7 +142,7 @@ def c11b(ctx):
         ok = ok and g.guarded(n, lambda at: at.mentions(lambda y: is_call(y, 'self.seed_progress.already_processed')), False)
         if ok:
             sd = [it.context_expr for it in w.items][0]
-            ok = unparse(sd.args[0]) == 'i' and unparse(sd.args[1]) == 'total_subtiles'
+            ok = same(sd.args[0], 'i') and same(sd.args[1], 'total_subtiles')
             # the already_processed test is inside the with
             tests = [s for s in w.body if isinstance(s, ast.If) and contains(s.test, lambda y: is_call(y, 'self.seed_progress.already_processed'))]
             ok = ok and bool(tests)
@@ -155,7 +155,7 @@ def c11b(ctx):
     if ok:
         before = ast.Module(body=body[:yi[0]], type_ignores=[])
         after = ast.Module(body=body[yi[0] + 1:], type_ignores=[])
-        ok = contains(before, lambda x: is_call(x, 'self.level_progresses.append') and unparse(x.args[0]) == '(i, subtiles)') and \
+        ok = contains(before, lambda x: is_call(x, 'self.level_progresses.append') and same(x.args[0], '(i, subtiles)')) and \
             contains(before, lambda x: isinstance(x, ast.AugAssign) and unparse(x.target) == 'self.level_progresses_level' and isinstance(x.op, ast.Add)) and \
             contains(after, lambda x: isinstance(x, ast.AugAssign) and unparse(x.target) == 'self.level_progresses_level' and isinstance(x.op, ast.Sub)) and \
             contains(before, lambda x: isinstance(x, ast.Assign) and unparse(x.targets[0]) == 'self.level_progresses' and 'self.level_progresses_level' in unparse(x.value))
@@ -213,7 +213,7 @@ def c11c(ctx):
                 'uncached' if 'not self.tile_mgr.is_cached(%s)' % cv in conds and 'is not None' in conds \
                 else 'stale' if 'self.tile_mgr.is_stale(%s)' % cv in conds and 'is not None' in conds else 'other:' + conds
         return None
-    filt = [s for s in loop.body if isinstance(s, ast.If) and unparse(s.test) == 'self.handle_all']
+    filt = [s for s in loop.body if isinstance(s, ast.If) and same(s.test, 'self.handle_all')]
     ok = bool(filt)
     if ok:
         tab = ctx.rows(table([filt[0]], lambda n: 'x', event_of=ev2))
@@ -228,30 +228,30 @@ def c11c(ctx):
     ctx.check(ok, 'TileWalker._walk:filter-precedence', 'tiles are filtered by all, else not-cached, else stale; None tiles are always dropped', wk,
               fail='the handle_all / handle_uncached / handle_stale filter is not `all > not is_cached > is_stale`')
     pr = [x for x in wk.walk() if is_call(x, 'self.worker_pool.process')]
-    ok = bool(pr) and all(unparse(x.args[0]) == 'handle_tiles' for x in pr)
+    ok = bool(pr) and all(same(x.args[0], 'handle_tiles') for x in pr)
     ctx.check(ok, 'TileWalker._walk:hands-filtered-tiles', 'the worker pool receives the filtered tile list', wk)
     # process flag: level selected
     sets = [s for s in wk.walk() if isinstance(s, ast.Assign) and unparse(s.targets[0]) == 'process' and const_value(s.value) is True]
     g = wk.cfg
-    ok = bool(sets) and all(g.guarded(g.node_of[id(s)], lambda at: at.op == 'in' and unparse(at.left) == 'current_level' and unparse(at.right) == 'levels', True) for s in sets)
+    ok = bool(sets) and all(g.guarded(g.node_of[id(s)], lambda at: at.op == 'in' and same(at.left, 'current_level') and same(at.right, 'levels'), True) for s in sets)
     ctx.check(ok, 'TileWalker._walk:process-iff-level-selected', 'tiles of a level are processed iff the level is one of the task levels', wk)
     wp = ctx.fn(S + ':TileWorkerPool.process')
     g = wp.cfg
     puts = g.find(lambda x: is_call(x, 'self.tiles_queue.put'))
-    ok = len(puts) == 1 and unparse(puts[0][1].args[0]) == 'tiles'
+    ok = len(puts) == 1 and same(puts[0][1].args[0], 'tiles')
     # every path to a normal return completed the put (its non-exception edge) -- except the dry-run return.  Path-sensitive:
     # a loop flag (`while not queued`) and break/else forms are the same thing here
     if ok:
         from ..cfg import entails_any
         pn = puts[0][0]
         done = [(pn, d) for d in g.succ[pn] if (pn, d) not in g.exc_edges]
-        dry = lambda at: at.op is None and unparse(at.expr) == 'self.dry_run'
+        dry = lambda at: at.op is None and same(at.expr, 'self.dry_run')
         seen = g.reachable_ps(0, skip_edges=done, skip=lambda s_, d_, struct, pol: entails_any(struct, pol, [(dry, True)]))
         ok = g.EXIT not in seen
     ctx.check(ok, 'TileWorkerPool.process:retry-until-queued', 'the retry loop is only left after the tiles were queued (or by SeedInterrupted)', wp,
               fail='process() can return although the tiles were not put into the worker queue')
     sw = ctx.fn(S + ':TileSeedWorker.work_loop')
-    ok = any(is_call(x, 'exp_backoff') and unparse(x.args[0]) == 'self.tile_mgr.load_tile_coords' and unparse(keyword(x, 'args')) == '(tiles,)' for x in sw.walk())
+    ok = any(is_call(x, 'exp_backoff') and same(x.args[0], 'self.tile_mgr.load_tile_coords') and unparse(keyword(x, 'args')) == '(tiles,)' for x in sw.walk())
     ctx.check(ok, 'TileSeedWorker.work_loop:creates', 'the seed worker loads/creates exactly the tiles it received', sw)
 
 
@@ -270,7 +270,7 @@ def c11d(ctx):
 
     def ev(st):
         if isinstance(st, ast.Assign) and unparse(st.targets[0]) == 'intersection':
-            return 'contains' if unparse(st.value) == 'CONTAINS' else 'task' if is_call(st.value, 'self.task.intersects') else 'other'
+            return 'contains' if same(st.value, 'CONTAINS') else 'task' if is_call(st.value, 'self.task.intersects') else 'other'
         return None
     tab = ctx.rows(table(loops[0].body, cls, event_of=ev))
     a_n = [a for a in tab.atoms if 'subtile' in a and 'None' in a]
@@ -290,9 +290,9 @@ def c11d(ctx):
     ctx.check(ok and not bad, 'TileWalker._filter_subtiles:table', 'a sub tile is kept iff all_subtiles or task.intersects(bbox) is truthy', fs,
               fail='_filter_subtiles drops an intersecting sub tile or keeps a disjoint one: %s' % bad[:2])
     sb = [s for s in fs.walk() if isinstance(s, ast.Assign) and unparse(s.targets[0]) == 'sub_bbox']
-    ok = bool(sb) and all(unparse(s.value) == 'self.grid.meta_tile(subtile).bbox' for s in sb)
+    ok = bool(sb) and all(same(s.value, 'self.grid.meta_tile(subtile).bbox') for s in sb)
     ctx.check(ok, 'TileWalker._filter_subtiles:meta-tile-bbox', 'the tested box is the (meta) tile bbox of the sub tile', fs)
-    ys = [x for x in fs.walk() if isinstance(x, ast.Yield) and isinstance(x.value, ast.Tuple) and unparse(x.value.elts[0]) == 'subtile']
+    ys = [x for x in fs.walk() if isinstance(x, ast.Yield) and isinstance(x.value, ast.Tuple) and same(x.value.elts[0], 'subtile')]
     ok = bool(ys) and all([unparse(e) for e in y.value.elts] == ['subtile', 'sub_bbox', 'intersection'] for y in ys)
     ctx.check(ok, 'TileWalker._filter_subtiles:yield-triple', 'kept entries are (subtile, sub_bbox, intersection)', fs)
     for cname in ('SeedTask', 'CleanupTask'):
@@ -318,9 +318,9 @@ def c11d(ctx):
     w = ctx.fn(S + ':TileWalker.walk')
     defs = Defs(w.node)
     bb = [v for v, sel in defs.of('bbox')]
-    ok = len(bb) == 1 and unparse(bb[0]) == 'self.task.coverage.extent.bbox_for(self.tile_mgr.grid.srs)'
+    ok = len(bb) == 1 and same(bb[0], 'self.task.coverage.extent.bbox_for(self.tile_mgr.grid.srs)')
     wk = [x for x in w.walk() if is_call(x, 'self._walk')]
-    ok = ok and bool(wk) and unparse(wk[0].args[0]) == 'bbox' and unparse(wk[0].args[1]) == 'self.task.levels'
+    ok = ok and bool(wk) and same(wk[0].args[0], 'bbox') and same(wk[0].args[1], 'self.task.levels')
     ctx.check(ok, 'TileWalker.walk:start-box', 'the walk starts with the coverage extent in the grid SRS and the task levels', w)
     wlk = ctx.fn(S + ':TileWalker._walk')
     sets = [s for s in wlk.walk() if isinstance(s, ast.Assign) and unparse(s.targets[0]) == 'all_subtiles' and isinstance(enclosing(s, ast.For), ast.For)]
@@ -346,7 +346,7 @@ def c11d(ctx):
     ctx.check(ok, 'limit_sub_bbox:intersection', 'limit_sub_bbox is the component-wise intersection (max, max, min, min with equal indices)', ls,
               fail='limit_sub_bbox is not the component-wise max/max/min/min intersection')
     ca = [x for x in wlk.walk() if is_call(x, 'limit_sub_bbox')]
-    ok = bool(ca) and [unparse(a) for a in ca[0].args] == ['cur_bbox', 'sub_bbox']
+    ok = bool(ca) and same_args(ca[0].args, ['cur_bbox', 'sub_bbox'])
     ctx.check(ok, 'TileWalker._walk:limits-sub-box', 'the box handed down is limit_sub_bbox(cur_bbox, sub_bbox)', wlk)
 
 
@@ -359,15 +359,15 @@ def c11e(ctx):
         cl = keyword(x, 'current_level', 2)
         from ..flow import affine
         a = affine(cl) if cl is not None else None
-        ok = ok and a is not None and a.get('current_level') == 1 and a.get('', 0) == 1 and unparse(x.args[0]) == 'sub_bbox' and unparse(x.args[1]) == 'levels'
+        ok = ok and a is not None and a.get('current_level') == 1 and a.get('', 0) == 1 and same(x.args[0], 'sub_bbox') and same(x.args[1], 'levels')
         ok = ok and unparse(keyword(x, 'all_subtiles', 3)) == 'all_subtiles'
     ctx.check(ok, 'TileWalker._walk:recursion-arguments', 'the walk descends with the limited sub box, the remaining levels and current_level + 1', wk,
               fail='the recursion does not go to the next level with the sub box of the sub tile')
     defs = Defs(wk.node)
     lv = [s for s in wk.walk() if isinstance(s, ast.Assign) and unparse(s.targets[0]) == 'levels']
-    ok = bool(lv) and all(unparse(s.value) == 'levels[1:]' for s in lv)
+    ok = bool(lv) and all(same(s.value, 'levels[1:]') for s in lv)
     g = wk.cfg
-    ok = ok and all(g.guarded(g.node_of[id(s)], lambda at: at.op == 'in' and unparse(at.left) == 'current_level', True) for s in lv)
+    ok = ok and all(g.guarded(g.node_of[id(s)], lambda at: at.op == 'in' and same(at.left, 'current_level'), True) for s in lv)
     ctx.check(ok, 'TileWalker._walk:levels-consumed', 'a level is removed from the remaining levels exactly when it is the current one', wk)
 
 
